@@ -3,7 +3,7 @@ import vlib
 CFG = dict(
     imports=["From Verif.C45 Require Import Model Spec."],
     checker="check_case",
-    n=dict(quick=400, thorough=12000),
+    n=dict(quick=400, thorough=8000),
     shard=50,
     rule="insert/remove/lookup/len histories (8-37 ops) over small pools of node names (incl. prefixes of each other, the empty "
          "string, an embedded NUL) on the real hashring.Ring with replicas in {1,2,3,5,8,100} and probes in {1,2,3,5}; hash = the "
@@ -24,6 +24,21 @@ CFG = dict(
 
 def run(ctx):
     return vlib.standard_flow(ctx, CFG)
+
+def replay(ctx, path):
+    """Re-evaluate a recorded case (inputs, recorded hash table, implementation observations) in Coq."""
+    import json
+    obj = json.load(open(path))
+    c = obj.get("case") or obj.get("first_case")
+    if not c:
+        print(open(path).read())
+        return 0
+    print(json.dumps(c.get("sample"), indent=1))
+    failing, _ = vlib.coq_eval_cases(ctx, CFG["imports"], CFG["checker"], [c["coq"]])
+    agree, ok = (failing[0][1], failing[0][2]) if failing else (True, True)
+    print("model == recorded implementation observations: %s ; specification oracle accepts them: %s" % (agree, ok))
+    return 0 if ok else 1
+
 
 MANIFEST = dict(
     category="proof",
